@@ -135,17 +135,23 @@ Inductive event :=
 | EMetaStartFails  (* metadata frame, acquired, process failed to start: immediate release *)
 | EClose.          (* HandleStreamClose / exit / closeStream: releaseSession *)
 
-(** streams are numbered; the state maps a stream to its sstate *)
-Definition streams := list (N * sstate).
+(** streams are numbered 0 .. K-1 (any K); the table holds the state of each *)
+Definition streams := list sstate.
 
-Fixpoint get (st : streams) (i : N) : sstate :=
-  match st with [] => SIdle | (j, s) :: r => if i =? j then s else get r i end.
-Definition set (st : streams) (i : N) (s : sstate) : streams := (i, s) :: st.
+(** a number outside the table behaves like a finished stream *)
+Definition get (st : streams) (i : nat) : sstate := nth i st SDone.
+
+Fixpoint set (st : streams) (i : nat) (s : sstate) : streams :=
+  match st, i with
+  | [], _ => []
+  | _ :: r, O => s :: r
+  | x :: r, S k => x :: set r k s
+  end.
 
 (** one event of stream [i] under session counter [n]: new counter, new
-    stream table.  [granted_by_checks] = the request passed the checks before
-    AcquireSession. *)
-Definition hstep (max : Z) (n : Z) (st : streams) (i : N) (e : event) (passes : bool) : Z * streams :=
+    table.  [passes] = the request passes the checks that precede
+    AcquireSession in validateAndAcquire. *)
+Definition hstep (max : Z) (n : Z) (st : streams) (i : nat) (e : event) (passes : bool) : Z * streams :=
   match e, get st i with
   | EMeta, SIdle =>
       if passes then let '(ok, n') := acquire max n in
@@ -157,21 +163,20 @@ Definition hstep (max : Z) (n : Z) (st : streams) (i : N) (e : event) (passes : 
       else (n, set st i SDone)
   | EClose, SHeld => (release n, set st i SDone)
   | EClose, SIdle => (n, set st i SDone)
-  | _, _ => (n, st)          (* metadata after the first frame is not metadata; repeated close does nothing *)
+  | _, _ => (n, st)          (* a later frame is not metadata; a repeated close does nothing *)
   end.
 
-Fixpoint hrun (max : Z) (n : Z) (st : streams) (evs : list (N * event * bool)) : Z * streams :=
+Fixpoint hrun (max : Z) (n : Z) (st : streams) (evs : list (nat * event * bool)) : Z * streams :=
   match evs with
   | [] => (n, st)
   | (i, e, p) :: r => let '(n', st') := hstep max n st i e p in hrun max n' st' r
   end.
 
-(** number of streams currently holding a session, among the streams named
-    in [ids] *)
-Fixpoint held_count (st : streams) (ids : list N) : Z :=
-  match ids with
+(** number of streams currently holding a session *)
+Fixpoint held (st : streams) : Z :=
+  match st with
   | [] => 0%Z
-  | i :: r => ((match get st i with SHeld => 1 | _ => 0 end) + held_count st r)%Z
+  | s :: r => ((match s with SHeld => 1 | _ => 0 end) + held r)%Z
   end.
 
 (** * Correspondence oracle *)
